@@ -620,6 +620,15 @@ Proof. intros [n off Fr pend k j D Hp Hg Hlr Hcr Hh Hlim Hwin Hcl].
   rewrite Hopen in O. destruct pend as [f|]; [contradiction|]. cbn [pend_span] in E. rewrite Z.add_0_r in E. rewrite E, Tg.
   rewrite Z.add_mod, (mul_mod32 n T32), (off_al n0 off0 Hoff0al _ _ _ _ _ Hlr) by lia. reflexivity. Qed.
 
+Lemma rep_pubpos s sp : sys_rep F pinv s sp -> sp_open sp = None ->
+  fl_position F m (sy_pub s) = if ps_closed (fl_pub F (sy_pub s)) then Err Closed else Ok (pos_after (sg_p0 g) (sp_stream sp)).
+Proof. intros [n off Fr pend k j D Hp Hg Hlr Hcr Hh Hlim Hwin Hcl] Hopen.
+  pose proof (tlen_facts _ Hg) as (T1 & T32 & Tmp & _ & Tmpl & Tg & Tm). pose proof Hg as (Hleg & Ht & Hm & Hs).
+  destruct Hh as [_ _ _ E O _ _ _ _]. rewrite Hopen in O. destruct pend as [f|]; [contradiction|].
+  cbn [pend_span] in E. rewrite Z.add_0_r, Tg in E.
+  rewrite (fk_position F pinv FK m n off _ Hp) by (unfold plog; fold (sys_log s); apply (lr_off _ _ _ _ _ _ _ _ Hlr)).
+  unfold plog. fold (sys_log s). rewrite Ht, E. reflexivity. Qed.
+
 (* shape of the result of every operation but a poll *)
 Definition result_shape (o : sop) (r : outcome Z) : Prop :=
   match o with
@@ -632,7 +641,8 @@ Lemma step_shape s sp o : sys_rep F pinv s sp -> env_ok F m s o = true ->
   match o with SPoll _ => True | _ =>
     let '(s', (r, ds, ms)) := sys_step F m rv s o in
     ds = [] /\ ms = [] /\ sy_img s' = sy_img s /\ result_shape o r /\
-    (ps_closed (fl_pub F (sy_pub s')) = true -> match o with SClose => True | _ => ps_closed (fl_pub F (sy_pub s)) = true end)
+    (ps_closed (fl_pub F (sy_pub s')) = true -> match o with SClose => True | _ => ps_closed (fl_pub F (sy_pub s)) = true end) /\
+    match o with SOffer _ _ | SClaim _ => forall e, r = Err e -> refusal e = true -> sy_pub s' = sy_pub s | _ => True end
   end.
 Proof. intros Hrep Henv. pose proof Hrep as [n off Fr pend k j D Hp Hg Hlr Hcr Hh Hlim Hwin Hcl].
   pose proof Hg as (Hleg & Ht & Hm & Hs). pose proof (lr_off _ _ _ _ _ _ _ _ Hlr) as Hofft.
@@ -652,6 +662,7 @@ Proof. intros Hrep Henv. pose proof Hrep as [n off Fr pend k j D Hp Hg Hlr Hcr H
     cbn [sy_img sy_pub]. repeat split; auto.
     + inversion Heff; subst; cbn [result_shape]; eauto.
     + inversion Heff; subst; intros Hc; congruence.
+    + intros e He Hr. subst r. inversion Heff; subst; try reflexivity; discriminate.
   - (* claim *)
     assert (Hlen : 0 <= len <= 1073741824) by (unfold env_ok, append_ok in Henv; lia).
     pose proof (fk_claim F pinv FK m rv n off (sy_pub s) len Hp Hlast Hofft Hlen) as Heff.
@@ -659,6 +670,7 @@ Proof. intros Hrep Henv. pose proof Hrep as [n off Fr pend k j D Hp Hg Hlr Hcr H
     cbn [sy_img sy_pub]. repeat split; auto.
     + inversion Heff; subst; cbn [result_shape]; eauto.
     + inversion Heff; subst; intros Hc; congruence.
+    + intros e He Hr. subst r. inversion Heff; subst; try reflexivity; discriminate.
   - (* commit *)
     destruct (fk_env F pinv FK m rv n off (sy_pub s) (pub_op (fl_pub F (sy_pub s)) (SCommit k0)) Hp eq_refl Logic.I) as (E1 & E2 & _).
     cbn [sys_step]. destruct (fl_step F m rv (sy_pub s) _) as [p' r] eqn:Est. cbn [fst snd] in E1, E2. cbn [sy_img sy_pub].
